@@ -126,11 +126,16 @@ def split_webs(prog, fn):
     for (pb, jb, tgt) in getattr(fn.cfg, "threaded", []) or []:
         tj = fn.term(jb)
         if tj["k"] == "switch" and tj["discr"]["k"] in ("copy", "move") and not tj["discr"]["place"]["proj"]:
-            l = tj["discr"]["place"]["local"]
-            if l in r.multi:
-                dids = sorted(r.defs_of(l), key=str)
-                for d in dids[1:]:
-                    union(dids[0], d)
+            ls = [tj["discr"]["place"]["local"]]
+            for s0 in fn.blocks[jb]["stmts"]:
+                # `d = discriminant(T); switch(d)`: T is what was threaded
+                if s0["k"] == "assign" and s0["rv"]["k"] == "discriminant" and not s0["rv"]["place"]["proj"]:
+                    ls.append(s0["rv"]["place"]["local"])
+            for l in ls:
+                if l in r.multi:
+                    dids = sorted(r.defs_of(l), key=str)
+                    for d in dids[1:]:
+                        union(dids[0], d)
     # the return terminator reads the return place
     if 0 in r.multi:
         for rb in fn.cfg.returns:
@@ -357,6 +362,76 @@ def drop_self_copies(prog, fn):
     return _rebuild(prog, fn, j), n
 
 
+# ---- 0. loop rotation --------------------------------------------------------------------------
+def _retarget_term(t, m):
+    k = t["k"]
+    if k == "goto":
+        t["target"] = m.get(t["target"], t["target"])
+    elif k == "switch":
+        t["targets"] = [[v, m.get(b, b)] for v, b in t["targets"]]
+        t["otherwise"] = m.get(t["otherwise"], t["otherwise"])
+    elif k in ("call", "assert", "drop"):
+        if t.get("target") is not None:
+            t["target"] = m.get(t["target"], t["target"])
+
+
+def rotate_loops(prog, fn):
+    """`loop { A; if c { break }; B }` (exit test in the middle, nothing leaves the loop before it) becomes
+    `A'; if !c' { loop { B; A; if c { break } } }`: the part of the body in front of the exit test, and the test, are
+    duplicated for the entry.  A hand-peeled first iteration (`A0; while c { B; A }`, where the compiler puts the evaluation
+    of `c` in front of the test) ends up in the same form."""
+    n = 0
+    for _round in range(3):
+        cfg = fn.cfg
+        done = False
+        for lp in sorted(cfg.loops, key=lambda l: len(l["body"])):
+            H, B = lp["header"], lp["body"]
+            exits = [(x, y) for x in B for y in cfg.succ[x] if y not in B]
+            exiting = {x for x, _ in exits}
+            if len(exiting) != 1 or H in exiting:
+                continue
+            E = next(iter(exiting))
+            # the part in front of the test: reachable from H inside the loop without passing E
+            F = {H}
+            st = [H]
+            while st:
+                x = st.pop()
+                for y in cfg.succ[x]:
+                    if y in B and y != E and y not in F:
+                        F.add(y)
+                        st.append(y)
+            latches = {a for a, _ in lp["backedges"]}
+            if latches & F or any(y not in F and y != E for x in F for y in cfg.succ[x]):
+                continue
+            if not all(cfg.dominates(E, a) for a in latches) or len(F) > 60:
+                continue
+            if any(fn.blocks[x]["term"]["k"] not in ("goto", "switch", "call", "assert", "drop") for x in F):
+                continue
+            entries = [p for p in cfg.pred[H] if p not in B]
+            if not entries:
+                continue
+            j = fn.j
+            blocks = j["body"]["blocks"]
+            m = {}
+            # the exit test is duplicated too (each copy then reads the one condition value computed in front of it)
+            if fn.blocks[E]["term"]["k"] not in ("switch",) or any(y in F or y == E for y in cfg.succ[E]):
+                continue
+            for x in sorted(F | {E}):
+                m[x] = len(blocks)
+                blocks.append(copy.deepcopy(blocks[x]))
+            for x in sorted(F | {E}):
+                _retarget_term(blocks[m[x]]["term"], m)
+            for pidx in entries:
+                _retarget_term(blocks[pidx]["term"], {H: m[H]})
+            fn = _rebuild(prog, fn, j)
+            n += 1
+            done = True
+            break
+        if not done:
+            break
+    return fn, n
+
+
 def normalise(prog, fn):
     """-> (normalised Fn, report string)"""
     if not fn.body or not fn.blocks:
@@ -365,6 +440,9 @@ def normalise(prog, fn):
     g = Fn(prog, j)
     g.normalised_from = fn
     rep = []
+    g, r0 = rotate_loops(prog, g)
+    if r0:
+        rep.append("loops rotated %d" % r0)
     for _ in range(3):
         g, a = split_webs(prog, g)
         g, b = coalesce(prog, g)
